@@ -937,6 +937,33 @@ def _refs_method(node, name):
     return False
 
 
+def _helper_schedules(model, fn, call, drain_name):
+    """number of scheduling calls a module-level helper makes with the parameter that receives self.<drain_name> at `call`
+    (a scheduling call inside a loop of the helper counts twice)"""
+    from ..model import Func
+    h = model.resolve_name(fn.module, call.func)
+    if not isinstance(h, Func) or h.cls is not None:
+        return 0
+    params = h.params()
+    recv = set()
+    for i, a_ in enumerate(call.args):
+        if isinstance(a_, ast.Starred):
+            return 0
+        if _refs_method(a_, drain_name) and i < len(params):
+            recv.add(params[i])
+    for kw in call.keywords:
+        if kw.arg and _refs_method(kw.value, drain_name):
+            recv.add(kw.arg)
+    if not recv:
+        return 0
+    k = 0
+    for x in own_nodes(h.node):
+        if isinstance(x, ast.Call) and isinstance(x.func, ast.Attribute) and x.func.attr in SCHED_PRIMS and any(
+                isinstance(y, ast.Name) and y.id in recv for a_ in x.args for y in ast.walk(a_)):
+            k += 2 if _inside(h.node, x, (ast.For, ast.While)) else 1
+    return k
+
+
 def check_single_consumer(ctx, R, classes):
     R.table('SINGLE_CONSUMER_TABLE', {'%s.%s' % k: v for k, v in SINGLE_CONSUMER_TABLE.items()})
     for cls in classes:
@@ -949,6 +976,9 @@ def check_single_consumer(ctx, R, classes):
                     if isinstance(n, ast.Call) and isinstance(n.func, ast.Attribute) and n.func.attr in SCHED_PRIMS \
                             and any(_refs_method(a, drain.name) for a in n.args):
                         sites.append((fn, n))
+                    elif isinstance(n, ast.Call) and isinstance(n.func, ast.Name):
+                        # the bound method handed to a module-level helper which schedules its parameter
+                        sites.extend((fn, n) for _ in range(_helper_schedules(ctx.model, fn, n, drain.name)))
             if not sites:
                 continue
             con = ctx.construct(drain)
